@@ -278,6 +278,16 @@ def deltaMath (inMath : Bool) : Delta → Bool
 
 def isControlWord (name : Str) : Bool := !name.isEmpty && name.all isAsciiAlpha
 
+/-- the name of a control symbol: one character that is not a letter, not whitespace, not a parenthesis or bracket -/
+def isControlSymbol (name : Str) : Bool :=
+  match name with
+  | [c] => !isAsciiAlpha c && !isPySpace c && c != '(' && c != ')' && c != '[' && c != ']'
+  | _ => false
+
+/-- the source starts with a paragraph break (a whitespace run with at least two newlines that begins with a
+    newline): the tokenizer then takes no post-space for a control word or a comment line in front of it -/
+def parStart (s : Str) : Bool := s.head? == some '\n' && decide (countNl (s.takeWhile isPySpace) ≥ 2)
+
 def macroNameOk (name : Str) : Bool :=
   (isControlWord name && name != "begin".toList && name != "end".toList) ||
   (match name with
@@ -312,9 +322,12 @@ def wfItems (ctx : Ctx) (inMath : Bool) (after : Str) : List Item → Bool
     let rest := unparseItems tl ++ after
     let written := unparseArgs args ++ rest
     macroNameOk name &&
+    -- a control word owns the whitespace behind it: with an empty `post` what is written next must start neither with a
+    -- letter nor with whitespace (the generator folds such whitespace into `post`), a paragraph break excepted
     (if isControlWord name then
        isWs post && decide (countNl post < 2) &&
-       (if post.isEmpty then !headIs isAsciiAlpha written else !headIs isPySpace written)
+       (if post.isEmpty then !headIs isAsciiAlpha written && (!headIs isPySpace written || parStart written)
+        else !headIs isPySpace written)
      else post.isEmpty) &&
     (match ctx.macroSpec name with
      | some (.std sig) => wfArgs ctx inMath rest sig args
@@ -409,34 +422,70 @@ def escSafe : Str → Bool
 def absentFollowOk (follow : Str) : Bool :=
   decide (countNl (follow.takeWhile isPySpace) < 2) && escSafe (follow.dropWhile isPySpace)
 
+/-- the characters that may delimit a delimited argument (`r` / `d` slots) in the covered fragment -/
+def isXDelim (c : Char) : Bool := c == '[' || c == ']' || c == '(' || c == ')' || c == '<' || c == '>'
+
+/-- a character that can be written as a marker argument in front of `follow`: the tokenizer reads it as a `char` token
+    or as the specials token of exactly that character -/
+def markerOk (keys : List Str) (c : Char) (follow : Str) : Bool :=
+  !isPySpace c && c != '\\' && c != '%' && c != '{' && c != '}' && c != '$' &&
+  (match testSpecials keys (c :: follow) 0 with
+   | none => true
+   | some k => k == [c])
+
+/-- the paragraph specials, when the context declares them, take no arguments -/
+def parCore (ctx : Ctx) : Bool :=
+  !parSpec ctx ||
+  (match lookupFirst ['\n', '\n'] ctx.specials with
+   | some (.std sig) => sig.isEmpty
+   | _ => false)
+
 mutual
 /-- the covered fragment of derivations; `after` is the whole source text that follows the list (not only the closing
     delimiter of the enclosing construct as in `wfItems`; the conditions that look ahead only inspect its first
-    characters): text (letters, digits, inert punctuation), whitespace with fewer than two newlines, brace groups,
-    comments ending in a newline (plus indentation), calls of control-word macros whose signature is made of
-    `m` / `o` / `s` slots written as brace groups / bracket groups / stars or left out, the four kinds of math, specials
-    without arguments; arbitrary nesting -/
+    characters): text (letters, digits, inert punctuation), whitespace with fewer than two newlines, paragraph breaks
+    (outside math; a newline, …, a newline; the paragraph specials of the context, if declared, without arguments), brace
+    groups, comments ending in a newline (plus indentation; also in front of a paragraph break), calls of control-word and
+    control-symbol macros and environments (`\begin{name}` … `\end{name}`, normal or math body, unknown names through
+    the context's fallbacks) whose signature is made of `m` / `o` / `s` / `t<c>` / `r<c1c2>` / `d<c1c2>` slots, the four
+    kinds of math, specials without arguments, `\verb<d>text<d>`; arbitrary nesting -/
 def coreItems (ctx : Ctx) (inMath : Bool) (after : Str) : List Item → Bool
   | [] => true
   | .T t :: tl => !t.isEmpty && t.all isTextChar && coreItems ctx inMath after tl
   | .W w :: tl =>
     !w.isEmpty && isWs w && decide (countNl w < 2) && !headIs isPySpace (unparseItems tl ++ after) &&
     coreItems ctx inMath after tl
+  | .P w :: tl =>
+    !inMath && isWs w && decide (countNl w ≥ 2) && w.head? == some '\n' && w.getLast? == some '\n' &&
+    !headIs isPySpace (unparseItems tl ++ after) && parCore ctx && coreItems ctx inMath after tl
   | .G b :: tl => coreItems ctx inMath ('}' :: (unparseItems tl ++ after)) b && coreItems ctx inMath after tl
   | .C text tail :: tl =>
     !text.contains '\n' && tail.head? == some '\n' && isWs tail && decide (countNl tail < 2) &&
     (match tl with
      | .W w :: _ => decide (countNl w = 0)
+     | .P _ :: _ => true
      | _ => !headIs isPySpace (unparseItems tl ++ after)) &&
     coreItems ctx inMath after tl
   | .M name post args :: tl =>
     let rest := unparseItems tl ++ after
     let written := unparseArgs args ++ rest
-    isControlWord name && name != "begin".toList && name != "end".toList &&
-    isWs post && decide (countNl post < 2) &&
-    !headIs isAsciiAlpha (post ++ written) && !headIs isPySpace written &&
+    (if isControlWord name then
+       name != "begin".toList && name != "end".toList && isWs post && decide (countNl post < 2) &&
+       !headIs isAsciiAlpha (post ++ written) && (!headIs isPySpace written || (post.isEmpty && parStart written))
+     else
+       -- a control symbol: one character that is not a letter; it takes no post-space
+       post.isEmpty && isControlSymbol name) &&
     (match ctx.macroSpec name with
      | some (.std sig) => coreArgs ctx inMath rest sig args
+     | _ => false) &&
+    coreItems ctx inMath after tl
+  | .E name args body :: tl =>
+    let rest := unparseItems tl ++ after
+    !name.isEmpty && name.all isEnvNameChar &&
+    (match ctx.envSpec name with
+     | some (.std sig, bm) =>
+       coreArgs ctx inMath (unparseItems body ++ (endStr name ++ rest)) sig args &&
+       coreItems ctx (inMath || bm) (endStr name ++ rest) body
      | _ => false) &&
     coreItems ctx inMath after tl
   | .F k b :: tl =>
@@ -450,13 +499,20 @@ def coreItems (ctx : Ctx) (inMath : Bool) (after : Str) : List Item → Bool
      | some (.std sig) => sig.isEmpty
      | _ => false) &&
     coreItems ctx inMath after tl
+  | .V d text :: tl =>
+    (match ctx.macroSpec "verb".toList with
+     | some .legacyVerb => true
+     | _ => false) &&
+    !isAsciiAlpha d && !isPySpace d && !text.contains d && coreItems ctx inMath after tl
   | _ :: _ => false
-/-- one written value per declared slot: `m` as a brace group, `o` as a bracket group or absent, `s` as a star or
-    absent; `rest` = the whole source after the call -/
+/-- one written value per declared slot: `m` as a brace group or a single text character, `o` as a bracket group or
+    absent, `s` as a star or absent, `t<c>` as the marker or absent, `r<c1c2>` / `d<c1c2>` as a delimited group with
+    delimiters among `[ ] ( ) < >` (`d` also absent); an absent slot is followed by text the tokenizer reads without an
+    error (`absentFollowOk`: not a paragraph break, `\begin`, `\end`); `rest` = the whole source after the call -/
 def coreArgs (ctx : Ctx) (inMath : Bool) (rest : Str) : List ArgSpec → List ArgVal → Bool
   | [], [] => true
   | sp :: sig, .absent :: tl =>
-    (match sp.kind with | .o _ => true | .s => true | _ => false) &&
+    (match sp.kind with | .o _ => true | .s => true | .t _ => true | .d o _ => isXDelim o | _ => false) &&
     absentOk sp.kind (unparseArgs tl ++ rest) && absentFollowOk (unparseArgs tl ++ rest) &&
     coreArgs ctx inMath rest sig tl
   | sp :: sig, .star :: tl => sp.kind == .s && coreArgs ctx inMath rest sig tl
@@ -466,11 +522,17 @@ def coreArgs (ctx : Ctx) (inMath : Bool) (rest : Str) : List ArgSpec → List Ar
   | sp :: sig, .grp b :: tl =>
     sp.kind == .m && coreItems ctx (deltaMath inMath sp.delta) ('}' :: (unparseArgs tl ++ rest)) b &&
     coreArgs ctx inMath rest sig tl
+  | sp :: sig, .tok c :: tl => sp.kind == .m && isTextChar c && coreArgs ctx inMath rest sig tl
+  | sp :: sig, .marker c :: tl =>
+    sp.kind == .t c && markerOk (ctxKeys ctx) c (unparseArgs tl ++ rest) && coreArgs ctx inMath rest sig tl
+  | sp :: sig, .del o c b :: tl =>
+    (sp.kind == .r o c || sp.kind == .d o c) && isXDelim o && isXDelim c && o != c &&
+    coreItems ctx (deltaMath inMath sp.delta) (c :: (unparseArgs tl ++ rest)) b && coreArgs ctx inMath rest sig tl
   | _, _ => false
 end
 
 /-- **the fragment for which the round trip is proved**: a condition on the context (no specials string starts
-    with a text character, `*`, `[` or `]`) and on the derivation -/
+    with a text character, `*`, `[` or `]`) and on the derivation (`coreItems`) -/
 def Core (ctx : Ctx) (d : List Item) : Bool := keysCore (ctxKeys ctx) && coreItems ctx false [] d
 
 /-! ### canonical text of shapes (mirrored by harness/docwire.py: `canon`) -/
